@@ -77,7 +77,14 @@ func init() {
 		if t.op == "app" && t.name == "addrhex" {
 			return TTrue // IsHexAddress(addr.Hex())
 		}
-		return App("ishexaddr", SBool, t)
+		ok := App("ishexaddr", SBool, t)
+		if !it.p.lenAx[ok.id] {
+			// a hex address is 40 hex digits with an optional 0x prefix
+			it.p.lenAx[ok.id] = true
+			ln := it.strLenTerm(t)
+			it.p.assertAxiom(Implies(ok, Or(Eq(ln, BVu(64, 40)), Eq(ln, BVu(64, 42)))))
+		}
+		return ok
 	}
 	ident := func(it *Interp, a []Val) Val {
 		s := a[0].(*StrV)
